@@ -187,6 +187,16 @@ def parse_obs(text):
     return cases, order
 
 
+def _big_stack():
+    """the extracted OCaml code recurses on lists (firstn, app, map): give it the largest stack allowed"""
+    import resource
+    soft, hard = resource.getrlimit(resource.RLIMIT_STACK)
+    try:
+        resource.setrlimit(resource.RLIMIT_STACK, (hard, hard))
+    except (ValueError, OSError):
+        pass
+
+
 def run_sharded(exe, mode, script_lines_by_case, wd, tag, nshards=None, timeout=600, extra_env=None, prefix=None):
     """Run an executor over cases split into shards in parallel. script_lines_by_case: list of (id, [lines])."""
     nshards = nshards or min(NPROC, max(1, len(script_lines_by_case) // 8))
@@ -207,7 +217,7 @@ def run_sharded(exe, mode, script_lines_by_case, wd, tag, nshards=None, timeout=
         outp = os.path.join(wd, "%s.%d.out" % (tag, i))
         cmd = (prefix or []) + [exe, mode, path]
         procs.append((subprocess.Popen(cmd, stdout=open(outp, "w"), stderr=subprocess.PIPE,
-                                       env=extra_env or os.environ), outp, cmd))
+                                       env=extra_env or os.environ, preexec_fn=_big_stack), outp, cmd))
     allcases = {}
     crashed = []
     for p, outp, cmd in procs:
